@@ -95,6 +95,14 @@ func (e *Env) apply(f *Fault) {
 		e.Ev("fault %s", desc)
 		return
 	}
+	if e.FreeMode && (f.Act == "stall" || f.Act == "dialdelay") {
+		// free (-race) mode uses the real sync types: a goroutine that blocks
+		// (durably) in Write or Dial while holding one of them and a second one
+		// waiting for that mutex (not durably) would keep the bubble from ever
+		// becoming idle. These two faults exist in controlled mode only.
+		e.Ev("fault %s (skipped in free mode)", f.Act)
+		return
+	}
 	switch f.Act {
 	case "move":
 		if r := e.liveRegion(f.Table, f.Region); r != nil {
